@@ -243,6 +243,31 @@ func runC16(r *mc.Run) {
 	}
 	// (i) and (i') run twice: with the library's logger at its default level and at verbosity 2 (log output stays
 	// discarded) — preparing a log line must not write to the caller's data either
+	// collateral whose mask / value fields are wider than the quote's (16-byte TDX module attributes, 32-byte QE
+	// attributes, 8-byte MISCSELECT): the verdict is an error, and getting there writes nothing into the quote
+	{
+		w5 := world.Honest("T")
+		w5.Spec.Extra = world.Fill("c16-extra", 8)
+		w5.Parts = w5.Spec.Parts()
+		w5.TcbInfo = world.DefaultTcbInfo(w5.Plat, w5.Parts.Body[0:16])
+		w5.TcbInfo.TdxModule.Attributes = w5.TcbInfo.TdxModule.Attributes + "0000000000000000"
+		w5.TcbInfo.TdxModule.AttributesMask = w5.TcbInfo.TdxModule.AttributesMask + "0000000000000000"
+		w5.QeID = world.DefaultQeIdentity()
+		w5.QeID.Attributes, w5.QeID.AttributesMask = w5.QeID.Attributes+strings.Repeat("00", 16), w5.QeID.AttributesMask+strings.Repeat("00", 16)
+		w5.QeID.Miscselect, w5.QeID.MiscselectMask = w5.QeID.Miscselect+"00000000", w5.QeID.MiscselectMask+"00000000"
+		w5.Finish()
+		shapes = append(shapes, shape{"collateral-with-wider-masks", w5.Raw(), w5})
+		w6 := world.Honest("T")
+		w6.Spec.Extra = world.Fill("c16-extra", 8)
+		w6.Parts = w6.Spec.Parts()
+		w6.TcbInfo = world.DefaultTcbInfo(w6.Plat, w6.Parts.Body[0:16])
+		w6.TcbInfo.TdxModule.Mrsigner = w6.TcbInfo.TdxModule.Mrsigner + "0000"
+		w6.TcbInfo.Fmspc, w6.TcbInfo.PceID = w6.TcbInfo.Fmspc+"00", w6.TcbInfo.PceID+"00"
+		w6.QeID = world.DefaultQeIdentity()
+		w6.QeID.Mrsigner = w6.QeID.Mrsigner + "00000000"
+		w6.Finish()
+		shapes = append(shapes, shape{"collateral-with-longer-identifiers", w6.Raw(), w6})
+	}
 	for _, lvl := range []int{0, 2} {
 		world.SetLogLevel(lvl)
 		lvlTag := ""
